@@ -23,6 +23,7 @@ def suites : List (String × (String → String → CaseResult)) :=
   [("format", FormatSuite.runCase .c02)] ++
   [("format03", FormatSuite.runCase .c03)] ++
   [("macro", MacroSuite.runCase)] ++
+  [("saveload", SaveSuite.runCase)] ++
   []
 
 structure DAcc where
